@@ -148,3 +148,11 @@ chk("C08", "fault_enumeration",
     "Oracle: recovery fails or serves the key that was being saved (never another, never an unusable pair), an existing file is never rewritten, file 0600 / directories 0700 at every point.",
     "A crash stops the process at a call boundary or inside WriteFile after k bytes, with what was written durable; only lib/sstls's own os calls are intercepted (txtar reads through the real os).",
     "DESIGN.md 5 C08")
+
+chk("C20", "fault_enumeration",
+    "exhaustive enumeration of single and paired start-up faults x informational flag x tty, and of self-initiated exits, on the real binary with termios compared",
+    "The real curlrevshell binary, as session leader on a fresh pty or without any controlling terminal: every single fault of {listen address: bad syntax / port bound / not local; cache: empty / cut before the key / garbage / unwritable path; "
+    "log path: parent missing / parent is a file; Ctrl+I source missing} and every pair from different resources x {no flag, -print-default-template, -print-ctrl-i, -h} x {pty, no tty}; every self-initiated exit (Ctrl+C, Ctrl+D, -one-shell completion; idle and with a shell attached over real TLS). "
+    "Oracle: no panic / stack trace, non-zero status with a message naming a cause (or the requested output with status 0), exit 0 + 'Goodbye.' for self exits, termios after exit equal to termios before start.",
+    "Which of two faults is named and whether an informational flag wins over a fault is not fixed by the statement: either accepted. Root ignores file modes, so 'unwritable' is a parent that is a regular file.",
+    "DESIGN.md 5 C20")
